@@ -1,5 +1,5 @@
 import vflib
-WRAPS = ("psGetEntropy", "gettimeofday", "time", "clock_gettime", "chooseSkeSigAlg", "chooseSigAlg", "tls13ChooseSigAlg")
+WRAPS = ("psGetEntropy", "gettimeofday", "time", "clock_gettime", "chooseSkeSigAlg", "chooseSigAlg", "tls13ChooseSigAlg", "getEccParamById")
 def run(ctx):
     st = [dict(variant="asan", name="c07", sources=["checks/c07_negotiation.c", "harness/mx_wraps.c"], wraps=WRAPS, libs=["-lcrypto"], shards=vflib.NCPU, timeout=7200 if ctx.thorough else 1500)]
     rule = ("Each case = one pair of client/server configurations (all 7x7 TLS and 3x3 DTLS version subsets exhaustively; every single suite per version with the suite enabled or disabled on "
@@ -24,7 +24,15 @@ def run(ctx):
             "(extension in ClientHello and ServerHello on the wire, equal to both endpoints' state) iff both enabled it, a requiring side never completes without it, an abbreviated handshake is in "
             "step with the original session; controls must resume. Honest completed handshakes: ServerHello suite / legacy_version / null compression and the RFC 8446 downgrade sentinel in "
             "ServerHello.random (present exactly when a 1.3-capable server negotiates 1.2 / 1.1) read from the wire; rewrites of supported_versions to 'no 1.3' and to '1.1 only' must kill the "
-            "client at the ServerHello. distinct_nontrivial = distinct configuration / rewrite / (identity, version, role, list, forced algorithm) tuples that were applicable and executed.")
+            "client at the ServerHello. ECDHE curve sets under (D)TLS <= 1.2: client and server sslSessOpts_t.ecFlags drawn from every pair of subsets of {secp256r1, secp384r1, secp521r1} incl. 'option "
+            "left alone' (all singleton, disjoint and nested pairs) plus pairs reaching into secp192r1 / secp224r1 (thorough: all 32x32 pairs of subsets of the five compiled-in curves), ECDHE_RSA with "
+            "the RSA identity and ECDHE_ECDSA with the P-256 / P-384 / P-521 identities, TLS 1.2, TLS 1.1, DTLS 1.2 and a TLS 1.3-capable server handing a TLS 1.2 hello to the legacy parser (thorough "
+            "also {1.1,1.2}, DTLS 1.0, TLS 1.1 against a 1.1-1.3 server): the named curve is read from ServerKeyExchange and the offer from ClientHello.supported_groups on the wire; completion => "
+            "curve enabled on the server, enabled on the client, in the list on the wire, equal to what both endpoints recorded, data round trip; disjoint sets => no completion; a shared curve (and, "
+            "for ECDSA identities, the identity's curve enabled on both sides) => completion; the ClientHello offers no curve the client did not enable. Rogue curve server: the curve look-up of the "
+            "server's ClientHello parser is overridden (--wrap=getEccParamById) so that a correctly signed ServerKeyExchange uses a compiled-in curve the client did not offer (12 client-set / curve "
+            "combinations x RSA and P-256 identity x TLS 1.2 / TLS 1.1 / DTLS 1.2): the client must not complete; forcing a curve the client did offer is the control and must complete. "
+            "distinct_nontrivial = distinct configuration / rewrite / (identity, version, role, list, forced algorithm) tuples that were applicable and executed.")
     return vflib.std_run(ctx, st, "exploration", rule,
         ["completeness (must succeed) is asserted only for default lists, for HelloRetryRequest configurations that share a group, and for signature lists offering the whole universe; exotic list combinations may legally be refused",
          "(D)TLS 1.2 CertificateRequest carries the library's fixed list (SHA-1/256/384 x RSA/ECDSA) whatever matrixSslSessOptsSetSigAlgs says: a client whose chain needs SHA-512 legally declines; the CertificateVerify algorithm is checked against both the configured list and the list on the wire",
@@ -35,4 +43,6 @@ def run(ctx):
          "process-wide suite switches are not exercised on DTLS: client and server share the process here and the client re-encodes its ClientHello after HelloVerifyRequest",
          "ClientHello.legacy_version is judged only with the default suite list (a list without TLS 1.3 suites makes a 1.3-enabled client write the hello of its highest usable version)",
          "after an EMS mismatch on resumption the library falls back to a full handshake where RFC 7627 5.3 says abort; only the parameters in force are judged",
+         "sslSessOpts_t.ecFlags is the curve switch of (D)TLS <= 1.2 only (dev guide): curve-set cases keep the client at <= 1.2, where its ClientHello is written from ecFlags; a TLS 1.3-capable client writes supported_groups from matrixSslSessOptsSetKeyExGroups instead",
+         "the curve of an ECDSA server identity is not 'the key-exchange group in force': a handshake whose ECDHE curve both sides enabled but whose certificate sits on a curve outside the client's set is counted (ec_completed_with_identity_curve_outside_client_set), not reported",
          "renegotiation is compiled out"], min_nontrivial=2000)
